@@ -404,6 +404,71 @@ def check_binding_aware_substitution(ctx: Check, tree: Tree) -> None:
         raise AnalysisError(f"only {n} substitutions of own indices found in PoolSum (evaluate and cleanup confirmed)")
 
 
+def check_external_expansion(ctx: Check, tree: Tree) -> None:
+    """R-BINDSUBST outside the class: any function of the package that substitutes the index symbols
+    of a PoolSum (taken from `<sum>.indices`) into its summand (`<sum>.expression`) - a hand-written
+    expansion next to PoolSum.evaluate(), e.g. inside HelicityModel.expression - must use subs();
+    R-SINGLE: and whoever unfolds PoolSums should go through PoolSum.evaluate()."""
+    n = 0
+    for q, fn in sorted(tree.funcs.items()):
+        if not q.startswith("ampform") or fn.outer is not None or (fn.cls is not None and fn.cls.qual == POOLSUM):
+            continue
+        rd = RD(fn.node)
+        for node in walk_function(fn.node, nested=True):
+            if not (isinstance(node, ast.Call) and isinstance(node.func, ast.Attribute) and node.func.attr in {"subs", "xreplace", "replace"} and node.args):
+                continue
+            recv = node.func.value
+            if not (isinstance(recv, ast.Attribute) and recv.attr == "expression"):
+                continue
+            owner = unparse(recv.value)
+            arg = node.args[0]
+            texts = [unparse(arg)] + [unparse(d.value) for d in rd.closure(rd.uses(arg)) if isinstance(d.value, ast.AST)]
+            texts += [unparse(d.node.iter) for d in rd.closure(rd.uses(arg)) if d.kind in {"for", "comp"} and hasattr(d.node, "iter")]
+            if not any(f"{owner}.indices" in t for t in texts):
+                continue
+            n += 1
+            ok = node.func.attr == "subs"
+            ctx.verdict(ok, "R-BINDSUBST", f"{q}::{node.func.attr} of the indices of `{owner}`", tree.loc(node),
+                        f"{q}: `{unparse(node)[:60]}` substitutes the index symbols of the PoolSum `{owner}` into its summand with {node.func.attr}()",
+                        None if ok else "xreplace also rewrites an index of the same name bound by a nested PoolSum: the hand-written expansion and PoolSum.evaluate() disagree for shadowed indices")
+    if n == 0:
+        ctx.ok("R-BINDSUBST", "src/ampform", "no function outside PoolSum substitutes the indices of a PoolSum into its summand (all expansions go through PoolSum.evaluate)")
+
+
+def check_subs_returns(ctx: Check, tree: Tree) -> None:
+    """R-BINDER (returns): PoolSum._eval_subs may only answer `self` for a bound symbol and otherwise
+    leave the substitution to SymPy (`return None`), which substitutes in the summand AND in the value
+    pools.  A hand-made result that only visits the summand leaves the pools untouched
+    (PoolSum(a**i, (i, (-J, J))).subs(J, 2)); a `return self` on any other condition (e.g. "old is not in
+    my - possibly stale - free symbols") skips real substitutions."""
+    cls = tree.cls(POOLSUM)
+    m = cls.methods.get("_eval_subs")
+    if m is None:
+        raise AnalysisError("vanished anchor: PoolSum._eval_subs")
+    self_, old = m.params[0], m.params[1]
+    problems = []
+    for r in [r for r in walk_function(m.node, nested=False) if isinstance(r, ast.Return)]:
+        v = r.value
+        guards = [a for a in ancestors(r) if isinstance(a, ast.If)]
+        if v is None or (isinstance(v, ast.Constant) and v.value is None):
+            continue
+        if isinstance(v, ast.Name) and v.id == self_:
+            own = any(any(isinstance(n, ast.Attribute) and n.attr == "indices" for n in ast.walk(g.test)) or _test_uses_bound_local(m, g.test) for g in guards)
+            foreign = [unparse(g.test) for g in guards if not (any(isinstance(n, ast.Attribute) and n.attr in {"indices", "bound_symbols"} for n in ast.walk(g.test)) or _test_uses_bound_local(m, g.test))]
+            if not own or foreign:
+                problems.append(f"`return self` under `{' and '.join(unparse(g.test) for g in guards) or 'no condition'}` - not (only) the own-index test")
+            continue
+        problems.append(f"`{unparse(r)[:70]}` builds its own result: the value pools of the indices are not substituted")
+    ctx.verdict(not problems, "R-BINDER", f"{m.qual}::returns", tree.loc(m.node),
+                "PoolSum._eval_subs: `self` only for an own index, otherwise None (SymPy substitutes in the summand and in the pools)", problems or None)
+    fs = cls.methods.get("free_symbols")
+    decs = [unparse(d) for d in fs.node.decorator_list] if fs is not None else []
+    ok = fs is not None and decs == ["property"]
+    ctx.verdict(ok, "R-FREE", f"{POOLSUM}.free_symbols::recomputed", tree.loc(fs.node) if fs else tree.loc(cls.node),
+                "PoolSum.free_symbols is a plain property: a fresh set on every access (a cached set is shared, mutable state of an immutable expression)",
+                None if ok else f"decorators {decs}: callers routinely modify the set they get (`symbols = expr.free_symbols; symbols |= ...`)")
+
+
 def run(ctx: Check, tree: Tree) -> None:
     ctx.decided += [
         "R-BINDER: every expression class that removes bound symbols from free_symbols guards substitution of those symbols",
@@ -419,3 +484,5 @@ def run(ctx: Check, tree: Tree) -> None:
     ctx.section(check_evaluate, ctx, tree)
     ctx.section(check_cleanup, ctx, tree)
     ctx.section(check_binding_aware_substitution, ctx, tree)
+    ctx.section(check_external_expansion, ctx, tree)
+    ctx.section(check_subs_returns, ctx, tree)
